@@ -8,6 +8,7 @@ or a unit vector is replaced by the equivalent comparison of squares (sign aware
 -/
 import CBV.Model.Common
 import CBV.Gen.Tables
+import CBV.Gen.TC18
 
 namespace CBV.C18
 
